@@ -3,6 +3,7 @@ package props
 import (
 	"errors"
 	"fmt"
+	"regexp"
 	"strings"
 
 	"github.com/semihalev/twig"
@@ -22,7 +23,7 @@ func init() {
 	Register(&c06{base: base{
 		id: "C06", level: "exploration",
 		technique: "spy monitor: every filter/function is a logging spy; any logged invocation of a name the policy forbids between entry and exit of a sandboxed include is a violation; errors.As(*SecurityViolation) for straight-line uses; position x route x kind x policy grid run exhaustively",
-		rule: "case = (syntactic position of the forbidden name: 22 positions incl. every place of a filter chain, for sequence, apply, arguments, conditions, defaults, literals, set, inner with-hash) x (route from the sandbox boundary: direct, inner include plain/only/with, parent layout, overriding block, parent(), imported macro, from-imported macro, depth 3) x {filter, function} x 4 policies (edited default policy, custom policy, forbidden built-in name, forbidden name equal to a built-in fallback). " +
+		rule: "case = (syntactic position of the forbidden name: 22 positions incl. every place of a filter chain, for sequence, apply, arguments, conditions, defaults, literals, set, inner with-hash) x (route from the sandbox boundary: direct, inner include plain/only/with, parent layout, overriding block, parent(), imported macro, from-imported macro, depth 3, a macro of a library the includer imported whose own top-level import runs a helper's top-level code — decided by a call count against the same main template without its sandboxed include) x {filter, function} x 4 policies (edited default policy, custom policy, forbidden built-in name, forbidden name equal to a built-in fallback). " +
 			"Checked: no forbidden spy call; the render fails with a *SecurityViolation; the same template with the name allowed renders exactly like the unsandboxed render; the including template may use the name outside the include. " +
 			"Non-trivial: every grid point. Distinct = distinct (templates, policy).",
 		assumptions: []string{
@@ -34,7 +35,7 @@ func init() {
 }
 
 func (p *c06) RequiredCounters(string) []string {
-	return []string{"expected-violation-errors", "allowed-twin-renders", "outer-permission-checks"}
+	return []string{"expected-violation-errors", "allowed-twin-renders", "outer-permission-checks", "differential-spy-cases-with-calls-outside-the-sandbox"}
 }
 
 type c06Policy struct {
@@ -100,7 +101,7 @@ var c06Positions = []string{
 	"SPYONLY:{% macro X_FN() %}mac{% endmacro %}{{ xs.X_FN() }}{% for i in xs %}{{ i.X_FN() }}{% endfor %}",
 }
 
-const c06Routes = 18
+const c06Routes = 20
 
 func c06Expand(pos string, kind string, name string) (string, bool) {
 	app := "v|" + name
@@ -205,6 +206,21 @@ func c06Build(route int, frag string) map[string]string {
 		t["sb"] = "S:{{ parent() }}"
 		if route == 17 {
 			t["sb"] = "S:{% macro up() %}{{ parent() }}{% endmacro %}{{ up() }}{{ _self.up() }}"
+		}
+	case 18, 19:
+		// the includer imports a macro library outside the sandbox and the sandboxed template calls one of its macros; the
+		// library imports a helper at its top level, and the helper's top-level code (outside any macro) holds the construct.
+		// Outside the sandbox that code may run; whatever of it runs on behalf of the sandboxed template is held to the policy
+		// (decided by a call count against the same main template without its sandboxed include, see Run)
+		t["hlp"] = "{% set v = 'vv' %}{% set xs = [1] %}{% set yes = true %}T:" + frag + "{% macro hm() %}H{% endmacro %}"
+		if route == 18 {
+			t["main"] = "{% import 'mlib' as ml %}OUT[{% include 'sb' sandboxed %}]"
+			t["sb"] = "S:{{ ml.mac() }}"
+			t["mlib"] = "{% import 'hlp' as h %}{% macro mac() %}M{{ h.hm() }}{% endmacro %}"
+		} else {
+			t["main"] = "{% from 'mlib' import mac %}OUT[{% include 'sb' with {'tools': 1} %}|{% include 'sb' sandboxed %}]"
+			t["sb"] = "S:{{ mac() }}"
+			t["mlib"] = "{% from 'hlp' import hm %}{% macro mac() %}M{{ hm() }}{% endmacro %}"
 		}
 	default:
 		t["sb"] = "S:{% include 'in1' %}"
@@ -370,12 +386,17 @@ func (p *c06) Run(rec *core.Recorder, seed uint64, idx int, tier string) {
 			hops[i] = r2.Intn(6)
 		}
 		if len(hops) > 0 {
+			own := srcs["main"]
 			srcs = c06Prefix(srcs, hops)
+			if route >= 18 {
+				// these routes need the includer's own import in front of the sandboxed include
+				srcs["main"] = own[:strings.Index(own, "OUT[")] + srcs["main"]
+			}
 			rec.Count(fmt.Sprintf("prefix-hops:%d", len(hops)), 1)
 		}
 	}
 	allowedF := map[string]bool{"okf": true, "default": true, "length": true, "f1": true, "f2": true, "upper": true, "merge": true, "e": true, "spaceless": true, "raw": true, "escape": true}
-	allowedG := map[string]bool{"okg": true, "g1": true, "g2": true, "range": true, "max": true, "cycle": true, "pm": true, "mac": true, "parent": true, "block": true, "up": true, "go": true, "hop": true, "imac": true}
+	allowedG := map[string]bool{"okg": true, "g1": true, "g2": true, "range": true, "max": true, "cycle": true, "pm": true, "mac": true, "parent": true, "block": true, "up": true, "go": true, "hop": true, "imac": true, "hm": true}
 	mkPolicy := func(forbid bool) twig.SecurityPolicy {
 		f, g := map[string]bool{}, map[string]bool{}
 		for k, v := range allowedF {
@@ -426,6 +447,40 @@ func (p *c06) Run(rec *core.Recorder, seed uint64, idx int, tier string) {
 	res := renderFresh(srcs, "main", ctx, p.engine(spy, mkPolicy(true), name))
 	if res.Panicked {
 		rec.Violate("panic", "panic@"+res.Site, "engine panicked: "+res.PanicVal, cs, res.Stack)
+		return
+	}
+	if route >= 18 {
+		// differential spy: the forbidden name runs as often as in the same main template without its sandboxed include
+		base := map[string]string{}
+		for k, v := range srcs {
+			base[k] = v
+		}
+		base["main"] = regexp.MustCompile(`\{% include '[a-z0-9]+' sandboxed %\}`).ReplaceAllString(srcs["main"], "")
+		spy0 := &c06Spy{}
+		res0 := renderFresh(base, "main", ctx, p.engine(spy0, mkPolicy(true), name))
+		n, n0 := 0, 0
+		for _, l := range spy.log {
+			if l == forbiddenTag {
+				n++
+			}
+		}
+		for _, l := range spy0.log {
+			if l == forbiddenTag {
+				n0++
+			}
+		}
+		rec.Count("differential-spy-cases", 1)
+		if n0 > 0 {
+			rec.Count("differential-spy-cases-with-calls-outside-the-sandbox", 1)
+		}
+		if res0.Panicked {
+			rec.Violate("panic", "panic@"+res0.Site, "engine panicked: "+res0.PanicVal, cs, res0.Stack)
+			return
+		}
+		if base["main"] == srcs["main"] || n != n0 {
+			rec.Violate("spy", fmt.Sprintf("sandbox-bypass:pos%d:route%d:%s", pos, route, kind),
+				fmt.Sprintf("forbidden %s %q was invoked %d times with the sandboxed include in place and %d times without it: the difference ran on behalf of the sandboxed template (position %q, route %d); render returned out=%q err=%v", kind, name, n, n0, c06Positions[pos], route, core.Trunc(res.Out, 120), res.Err), cs, "")
+		}
 		return
 	}
 	for _, l := range spy.log {
